@@ -320,7 +320,16 @@ def check_cell(ctx: Ctx, rng, ff, grp=None, pos=None, side=None, near=None):
         if rn in TITR and r is not tres:
             values[(rn, r[0].resseq, "A")] = 15.0 if DEFAULT_PROT[rn] else -1.0
     values[key] = pka
-    run = run_titrated(text, ff, ph, values)
+    # --ffout only renames the output (C09): every third cell carries an output naming scheme different from the force
+    # field that supplies the parameters; the decision and the support rule stay those of --ff (own PRNG stream, so the
+    # cells drawn above are what they were)
+    extra = ()
+    fr = random.Random(f"ffout:{ctx.seed}:{ctx.evaluations}")
+    if fr.random() < 0.34:
+        other = fr.choice([f for f in ("AMBER", "CHARMM", "PARSE", "TYL06", "PEOEPB", "SWANSON") if f.lower() != ff.lower()])
+        extra = (f"--ffout={other}",)
+        ctx.count("cells-with-ffout", f"{ff}->{other}")
+    run = run_titrated(text, ff, ph, values, extra)
     ctx.evaluations += 1
     ctx.distinct.add(("cell", ff, grp, pos, side) if near is None else ("near-cell", ff, grp, pos, side, near))
     ctx.count("cells", f"{ff}:{grp}:{pos}")
@@ -328,7 +337,9 @@ def check_cell(ctx: Ctx, rng, ff, grp=None, pos=None, side=None, near=None):
     if near is not None:
         ctx.count("near-cell-outcome", run.status)
     sig0 = {"ff": ff, "group": grp, "position": pos, "side": "ph<pKa" if ph < pka else "ph>=pKa"}
-    replay = {"pdb": text, "ff": ff, "ph": ph, "values": [[list(k), v] for k, v in values.items()], "target": list(key)}
+    replay = {"pdb": text, "ff": ff, "ph": ph, "values": [[list(k), v] for k, v in values.items()], "target": list(key), "extra": list(extra)}
+    if extra:
+        sig0["ffout"] = "differs"
     if near is not None:
         sig0["resolution"] = "|pH-pKa|<0.005"
         replay["stream"] = f"near:{near}"
@@ -504,11 +515,11 @@ def replay(ctx: Ctx, data: dict) -> bool:
     if "phs" in rp:
         qs = []
         for ph in rp["phs"]:
-            r = run_titrated(rp["pdb"], rp["ff"], ph, values)
+            r = run_titrated(rp["pdb"], rp["ff"], ph, values, tuple(rp.get("extra", ())))
             print(ph, r.status, total_charge(r) if r.status == "ok" else r.exc)
             qs.append(total_charge(r) if r.status == "ok" else None)
         return None not in qs and qs[1] > qs[0]
-    r = run_titrated(rp["pdb"], rp["ff"], rp["ph"], values)
+    r = run_titrated(rp["pdb"], rp["ff"], rp["ph"], values, tuple(rp.get("extra", ())))
     print("status:", r.status, r.exc)
     if r.status == "ok":
         missed = {id(a) for a in (r.missed or [])}
